@@ -132,6 +132,13 @@ func identity(m *ir.Module) (errs []string, nrefs int) {
 	for _, u := range m.UseListOrders {
 		c.use(reflect.ValueOf(u.Value), nil, "uselistorder")
 	}
+	for _, u := range m.UseListOrderBBs {
+		// the function is a module-level definition, the block one of that function's own blocks
+		c.use(reflect.ValueOf(u.Func), nil, "uselistorder_bb function")
+		if u.Func != nil {
+			c.use(reflect.ValueOf(u.Block), u.Func, "uselistorder_bb block of "+u.Func.Ident())
+		}
+	}
 	for _, f := range m.Funcs {
 		fv := reflect.ValueOf(f).Elem()
 		ft := fv.Type()
